@@ -1852,7 +1852,8 @@ Proof.
               ltac:(intro l; reflexivity)
               ltac:(reflexivity)
               (reg0 []) 0 RSUnknown sat_d sat_c sat_sj None)
-    as (g' & n' & t & E & Hi & Ist & _ & _ & R); try (vm_compute; reflexivity); try discriminate.
+    as (g' & n' & t & E & Hi & Ist & _ & _ & R);
+    [ intros ? ? ? L; discriminate L | try (vm_compute; reflexivity); try discriminate .. | ].
   - right. reflexivity.
   - constructor.
   - right. discriminate.
